@@ -2,7 +2,7 @@
 from __future__ import annotations
 import ast
 from ..api import A, spec
-from ..terms import Evaluator, Poly, Rec, Cond, Opq, Comp, tkey, paths_of, term_equal, has_opaque, compare_terms, as_poly
+from ..terms import show, Evaluator, Poly, Rec, Cond, Opq, Comp, tkey, paths_of, term_equal, has_opaque, compare_terms, as_poly
 from ..spaces import flat, show
 from ..report import AnalysisError
 from . import spacerules as SR
@@ -107,22 +107,22 @@ def solve_path(rep, prog):
     cm, cf = holders[0]
     raises = [n for n in ast.walk(cf) if isinstance(n, ast.Raise)]
     tries = [n for n in ast.walk(cf) if isinstance(n, ast.Try) and any(isinstance(x, ast.Call) and ast.unparse(x.func).split('.')[-1] == 'solve' for b_ in n.body for x in ast.walk(b_))]
-    def is_fallback(stmt):
-        return any(isinstance(x, ast.Call) and ast.unparse(x.func).split('.')[-1] in ('zeros', 'zeros_like') for x in ast.walk(stmt))
-    bad = []
-    # (1) nothing but the solve (and plain bindings) inside the try; (2) no raise; (3) zero fallbacks only in the handler or under an isnan test
-    for t_ in tries:
-        for s_ in t_.body:
-            if not (isinstance(s_, (ast.Assign, ast.AnnAssign, ast.Return, ast.Expr)) and not any(isinstance(x, (ast.If, ast.Raise)) for x in ast.walk(s_))): bad.append(s_)
-    handler_nodes = {id(x) for t_ in tries for h in t_.handlers for x in ast.walk(h)}
-    for n in ast.walk(cf):
-        if isinstance(n, ast.If):
-            guarded_fallback = any(is_fallback(x) for x in n.body)
-            if guarded_fallback and id(n) not in handler_nodes and 'isnan' not in ast.unparse(n.test): bad.append(n)
-    okf = not raises and not bad and len(tries) == 1
+    # every way into a value other than solve(A, b) is a test of the SOLUTION for NaN (the handler of an exception of the solver is the only other
+    # way, and a test inside the try that raises shows up as a guard here, too): read off the guards of the stored value
+    bad = []; undecided = []
+    for pc, leaf in (paths_of(sv) if sv is not None else []):
+        at = leaf.as_atom() if isinstance(leaf, Poly) else None
+        if isinstance(at, tuple) and at[0] == 'solve': continue
+        zero = (isinstance(leaf, Opq) and leaf.k and leaf.k[0] in ('np.zeros', 'np.zeros_like')) or (isinstance(leaf, Poly) and leaf.is_zero())
+        if not zero: undecided.append(f'{leaf!r:.60}'); continue
+        if not pc: bad.append('the all-zero vector is stored unconditionally')
+        for gk, pol in pc:
+            r_ = repr(gk)
+            if not ("'isnan'" in r_ and "'solve'" in r_): bad.append(f'guard {show(gk) if isinstance(gk, tuple) else gk!r:.80}')
+    okf = False if (raises or bad) else (None if undecided or len(tries) != 1 else True)
     rep.ob('R01.solve', 'fallback-only-from-solver', okf,
            'the zero fallback is reached only through an exception of np.linalg.solve or a NaN result' if okf else
-           f'additional ways into the all-zero fallback: {[ast.unparse(x)[:70] for x in raises + bad][:3]} -- a well-posed but badly scaled network is reported as all zeros', prog.site(cm, cf))
+           f'additional ways into the all-zero fallback: {([ast.unparse(x)[:70] for x in raises] + bad + undecided)[:3]} -- a well-posed but badly scaled network is reported as all zeros', prog.site(cm, cf))
 
 
 def _preds(space):
